@@ -28,6 +28,7 @@ inductive Mode where
   | dict      -- `k: v` or `**e`
   | slices    -- subscript: slices, expressions, `*e`
   | params    -- lambda parameters
+  | defparams -- parameters of a `def`: as `params`, with optional annotations
   | targets   -- assignment targets of `for`
   deriving DecidableEq, Repr
 
@@ -169,6 +170,34 @@ def paramF (k : Knot) : P PyExpr
         let (d, r') ← k.expr r
         some (.param n none (some d), r')
   | .name n :: r => if isKeyword n then none else some (.param n none none, r)
+  | _ => none
+
+/-- optional `: annotation` -/
+def annF (k : Knot) (r : List Tok) : Option (Option PyExpr × List Tok) :=
+  match r with
+  | .op [':'] :: r' => do let (a, r'') ← k.expr r'; some (some a, r'')
+  | _ => some (none, r)
+
+/-- a parameter of a `def` -/
+def dparamF (k : Knot) : P PyExpr
+  | .op ['*'] :: .name n :: r =>
+      if isKeyword n then none else do
+        let (ann, r1) ← annF k r
+        some (.starred (.param n ann none), r1)
+  | .op ['*'] :: r => some (bareStar, r)
+  | .op ['*', '*'] :: .name n :: r =>
+      if isKeyword n then none else do
+        let (ann, r1) ← annF k r
+        some (.keyword none (.param n ann none), r1)
+  | .op ['/'] :: r => some (slashMark, r)
+  | .name n :: r =>
+      if isKeyword n then none else do
+        let (ann, r1) ← annF k r
+        match r1 with
+        | .op ['='] :: r2 => do
+            let (d, r3) ← k.expr r2
+            some (.param n ann (some d), r3)
+        | _ => some (.param n ann none, r1)
   | _ => none
 
 def isSliceEnd : List Tok → Bool
@@ -343,6 +372,7 @@ def itemF (k : Knot) : Mode → P PyExpr
           | _ => none
   | .slices, toks => sliceF k toks
   | .params, toks => paramF k toks
+  | .defparams, toks => dparamF k toks
   | .targets, toks =>
       match toks with
       | .op ['*'] :: r => do
